@@ -103,6 +103,12 @@ class Ctx:
         self.case_desc = None
         self.t0 = time.time()
 
+    def count(self, quick, thorough):
+        """Number of cases for a workload section: the per-tier base count times the depth factor
+        (3 by default; VERIF_SCALE overrides it, e.g. for a fast smoke run)."""
+        base = quick if self.tier == 'quick' else thorough
+        return max(1, int(round(base * float(os.environ.get('VERIF_SCALE', '3')))))
+
     # -- cases ------------------------------------------------------------
     def case(self, desc, bucket=None, nontrivial=True):
         """Register one generated case (an execution that the monitors observe)."""
